@@ -22,7 +22,7 @@ META = common.meta(
 
 def tasks(tier, seed):
     out = []
-    n = 64 if tier == 'quick' else 480
+    n = 64 if tier == 'quick' else common.thorough(480)
     for k in range(n):
         out.append(('vt.props.c07', 't3_case', {'seed': seed, 'k': k, 'backend': 'T3', 'd': 1 + k % 4,
                                                 'kind': ['real', 'complex'][(k // 4) % 2],
